@@ -183,8 +183,36 @@ def _neutralised(expr, var):
     return out
 
 
+def atoms_total(ctx, rid):
+    """The record is written after the response went out: whatever the client put into the request must not make the
+    computation of an atom raise, or a request that was answered gets no record at all (the worker's last-resort clause logs
+    a traceback to the error log instead). `_get_user` decodes the client's Authorization header: base64 (binascii.Error on
+    bad padding / length) and UTF-8 (UnicodeDecodeError) failures are caught where they happen."""
+    repo = ctx.repo
+    from .c05 import _landing
+    f = ctx.fn(repo.func(GLOG + ".Logger._get_user"))
+    n = 0
+    for c in walk_own(f.node):
+        if not isinstance(c, ast.Call):
+            continue
+        q = repo.call_target(f.module, f, c) or ""
+        raises = []
+        if q.startswith("base64.") and "decode" in q:
+            raises = ["binascii.Error"]
+        elif isinstance(c.func, ast.Attribute) and c.func.attr == "decode" and not q.startswith("base64."):
+            raises = ["UnicodeDecodeError"]
+        for cls_q in raises:
+            n += 1
+            h = _landing(repo, f, c, cls_q)
+            ctx.check(rid, h is not None, key(f, "atoms-total|%s|%s" % (norm(c.func)[-30:], cls_q)), site(f, c),
+                      "`%s` raises %s on a client-chosen Authorization header (bad base64 padding / length, non-UTF-8 user name) and nothing in _get_user catches it: "
+                      "Logger.access() fails after the response was sent and the request gets no access-log record" % (norm(c)[:60], cls_q), "%s caught in _get_user" % cls_q)
+    ctx.floor(rid, "decoding calls on the Authorization header", n, 2)
+
+
 def r3(ctx):
     repo = ctx.repo
+    atoms_total(ctx, "C19.R3")
     fa = ctx.fn(repo.func(GLOG + ".Logger.access"))
     wr = [c for c in walk_own(fa.node) if isinstance(c, ast.Call) and norm(c.func) == "self.atoms_wrapper_class"]
     inf = [c for c in method_calls(fa, "info") if "access_log" in norm(c.func.value)]
